@@ -2,6 +2,7 @@ CONSTANTS Writers = {1, 2, 3}
   MsgsPerWriter = 2
   Parts = 2
   UseLock = FALSE
+  LockPerPart = FALSE
 INIT Init
 NEXT Next
 INVARIANTS WholeMessages
